@@ -430,6 +430,21 @@ fn validate(ctx: &Context<impl Channel>) -> Result<(), Error> {
         ..
     } = ctx;
     circ.validate()?;
+    // All input instructions must come first: preprocessing indexes the random input shares by instruction.
+    let first_gate = circ
+        .insts
+        .iter()
+        .position(|inst| !matches!(inst.op, Op::Input(_)))
+        .unwrap_or(circ.insts.len());
+    if let Some((w, inst)) = circ
+        .insts
+        .iter()
+        .enumerate()
+        .skip(first_gate)
+        .find(|(_, inst)| matches!(inst.op, Op::Input(_)))
+    {
+        return Err(CircuitError::InvalidInput(w, *inst).into());
+    }
     let Some(expected_inputs) = circ.input_regs.get(p_own) else {
         return Err(Error::PartyDoesNotExist);
     };
